@@ -216,6 +216,37 @@ def run(tier):
                                     "chunked_objects": sum(t.get("chunked", 0) for t in tcz), "two_column_traces": sum(1 for t in tcz if t.get("column")),
                                     "rep_pointers": sum(1 for t in tcz if t.get("rep") == "pointers"), "rep_global_chunked": sum(1 for t in tcz if t.get("rep") == "global" and t.get("chunked")),
                                     "empty_leading_chunk_with_negative_start": sum(1 for t in tcz if t["klens"] and t["klens"][0] == 0 and t["mask"]["k"] == "slice" and t["mask"]["s"][0] not in (NONE,) and t["mask"]["s"][0] < -len(t["keys"]))}
+    # (d2) specification -> code: every terminal state TLC reaches in a small GBChunked configuration (the call and what the machine
+    # merged per label / broadcast per row) is replayed into a real grouping, which must return the state's values
+    from .. import tlc as _tlc2
+    dcfg = chk_cfg(rows=2 if tier == "quick" else 3, chunks=2, kernels='{"sum", "last"}', masks='{"none", "bool", "slice"}', sorts="{TRUE}", distinct="FALSE", tail="")
+    st_all = _tlc2.dump_states("GBChunked", dcfg, "C03_chunked", timeout=1800)
+    seen, rcases = set(), []
+    for st in st_all:
+        if st.get("pc") != '"done"':
+            continue
+        keys = _tlc2.parse_tla(st["keys"])
+        if NULL in keys:
+            continue           # (arrow keys: a float NaN is a value; null keys are driven through the flat-threshold route in (d))
+        tf = st["tout"] != "<<>>"
+        comb = _tlc2.parse_tla(st["combined"])
+        kern = _tlc2.parse_tla(st["kernel"])
+        expect = _tlc2.parse_tla(st["tout"]) if tf else [(c["c"] if kern in ("size", "count") else c["a"]) for c in comb]
+        case = dict(kernel=kern, keys=keys, vals=_tlc2.parse_tla(st["vals"]), klens=_tlc2.parse_tla(st["klens"]), rep=_tlc2.parse_tla(st["rep"]),
+                    mask=_tlc2.parse_tla(st["mask"]), labels=_tlc2.parse_tla(st["labels"]), expect=expect, tf=int(tf))
+        k = json.dumps(case, sort_keys=True)
+        if k not in seen:
+            seen.add(k)
+            rcases.append(case)
+    if tier == "quick" and len(rcases) > 6000:
+        rcases = rng.sample(rcases, 6000)
+    rres = ck.drive(chunked.replay_state, rcases, group=lambda c: c["kernel"])
+    badr = [t for t in rres if not t.get("ok")]
+    ck.notes["chunked_spec_states_replayed"] = {"done_states": sum(1 for st in st_all if st.get("pc") == '"done"'), "replayed": len(rres), "transform_states": sum(c["tf"] for c in rcases), "mismatches": len(badr)}
+    ck.evaluations += len(rres)
+    ck.traces_ok += len(rres) - len(badr)
+    for b in badr[:50]:
+        ck.add_violation(dict(b, what="the real grouping did not return what the GBChunked machine holds in this terminal state"))
     rej = ck.validate("Trace_GBChunked", tcz, chk_trace_cfg(True), "chunked", nontrivial=lambda t: len(t["klens"]) > 1,
                       key=lambda t: json.dumps([t["kernel"], t["keys"], t["vals"], t["klens"], t["mask"], t["rep"], t["cfg"].get("tf"), t.get("column")]))
     if rej:
